@@ -187,7 +187,7 @@ pub fn compute_event(m: &Model, it: &mut Interner, same_as_last: bool) -> Value 
         "compact": qv(ind.compactness, 1e4, "compactness", &mut bad),
         "gvr": if gvrbad { json!(0) } else { json!(q(g.global_ventilation_rate, 1e4).unwrap()) },
         "gvrmodel": if gvrbad { json!(0) } else { json!(q(gvr_model, 1e4).unwrap()) },
-        "gvrbad": gvrbad,
+        "gvrbad": gvrbad, "gvrfin": g.global_ventilation_rate.is_finite(), "gvrmodelfin": gvr_model.is_finite(),
         "gvr_raw": format!("{}", g.global_ventilation_rate), "gvrmodel_raw": format!("{}", gvr_model),
     });
 
@@ -530,6 +530,13 @@ pub fn main_session(args: &Args) {
             }
         }
     }
+    if let Some(rf) = args.get("--reqs") {
+        for l in read_lines(&rf) {
+            if let Ok(v) = serde_json::from_str::<Value>(&l) {
+                reqs.push(v);
+            }
+        }
+    }
     let mut rng = Rng::new(seed);
     for i in 0..nrandom {
         reqs.push(json!({"abs": random_abstract(&mut rng, size, false), "ops": ops_full, "name": format!("rnd{}", i)}));
@@ -537,6 +544,7 @@ pub fn main_session(args: &Args) {
     for i in 0..nbroken {
         reqs.push(json!({"abs": random_abstract(&mut rng, size, true), "ops": ops_full, "name": format!("brk{}", i)}));
     }
+    write_lines(&format!("{}.reqs", out_path), &reqs.iter().map(|r| r.to_string()).collect::<Vec<_>>());
     let mut out: Vec<String> = vec![tables_event().to_string()];
     let mut stats = Stats { models: 0, events: 1, hangs: 0, loaderrs: 0 };
     drive(reqs, timeout, &mut out, &mut stats);
